@@ -133,6 +133,9 @@ def replay_schedule(path, threads, ops):
 # If fewer go through the stand-in, part of the shared state has moved outside what shuttle controls.
 EXPECTED_CELLS = 7
 
+# one seed takes 4-6 minutes on this machine (more when all cores are busy); far beyond that the scenario is not terminating
+MIRI_TIMEOUT = 40 * 60
+
 MIRI_FLAGS = "-Zmiri-preemption-rate=0.05 -Zmiri-disable-stacked-borrows -Zmiri-disable-validation"
 
 
@@ -164,6 +167,11 @@ def run_miri(seeds, threads, ops, par):
         for (s, p, t0) in running:
             rc = p.poll()
             if rc is None:
+                if time.time() - t0 > MIRI_TIMEOUT:
+                    p.kill()
+                    p.communicate()
+                    out.append(dict(seed=s, rc=124, stdout="", stderr="INVARIANT no_termination: the scenario did not finish under Miri within %d s" % MIRI_TIMEOUT, wall_s=time.time() - t0))
+                    continue
                 still.append((s, p, t0))
                 continue
             so, se = p.communicate()
